@@ -227,9 +227,11 @@ def check_property(prop, tier, seed, units, no_kani=False, verbose=False):
         for m in kani_res.get('machinery', []):
             undecided.append('kani: ' + m)
     exec_ev = None
-    if tier == 'thorough' and kani_cfg.get('exec') and not no_kani:
+    # bounded stand-ins by exhaustive execution: thorough tier; a property may ask for one of them on every change (`exec_quick`)
+    exec_names = (kani_cfg.get('exec') or []) if tier == 'thorough' else (kani_cfg.get('exec_quick') or [])
+    if exec_names and not no_kani:
         import run_kani
-        exec_ev = run_kani.run_exec(kani_cfg['exec'])
+        exec_ev = run_kani.run_exec(exec_names)
         for h in exec_ev:
             if h['status'] != 'SUCCESSFUL':
                 f = {'obligation': 'exec:' + h['name'], 'fn': h['target'], 'props': [prop], 'message': 'bounded exhaustive execution FAILED', 'rendered': h['output_tail'],
